@@ -403,8 +403,11 @@ def visible_disk(objdir: str):
 
 
 def observe_store(st):
-    ids = sorted(x.decode() for x in st)
     bad = []
+    try:
+        ids = sorted(x.decode() for x in st)
+    except Exception as e:       # noqa: BLE001  (the store cannot even be listed)
+        return [], ["<listing>:unreadable:" + type(e).__name__]
     for h in ids:
         try:
             t, raw = st.get_raw(h.encode())
@@ -460,7 +463,10 @@ def idx_file_class(path: str, packpath: str) -> str:
     except OSError:
         return "absent"
     if len(d) >= 40 and hashlib.sha1(d[:-20]).digest() == d[-20:] and d[-40:-20] == p[-20:]:
-        return "complete"
+        # every entry the pack declares is indexed (independent minimal parse of the fan-out table)
+        fan = 8 if d[:4] == b"\377tOc" else 0
+        if len(d) >= fan + 1024 and len(p) >= 12 and struct.unpack(">L", d[fan + 1020:fan + 1024])[0] == struct.unpack(">L", p[8:12])[0]:
+            return "complete"
     return "partial"
 
 
